@@ -112,7 +112,9 @@ struct ImageDamage : Family {
 			ref::RPrt m;
 			for (auto& l : plan.world) if (l.verb == "prt") m = prtFromSpec(l);
 			// keep pixel extents small so sprite extraction can succeed against the seeded pixel files
-			for (auto& im : m.images) { im.width %= 40; im.scanLine = (im.width + 3) & ~3u; im.height %= 20; im.dataOffset %= 3000; }
+			// width >= 1: a zero-width image has a zero-byte scan line, so ANY height is consistent with an empty pixel slice and the
+			// row loops of the writer run 2^31 times (finite, minutes) - see DESIGN.md 9
+			for (auto& im : m.images) { im.width = 1 + im.width % 39; im.scanLine = (im.width + 3) & ~3u; im.height %= 20; im.dataOffset %= 3000; }
 			valid = ref::encodePrt(m, &fields);
 			headerLen = valid.size();
 			prtImages = m.images.size();
